@@ -264,7 +264,7 @@ def b_partial_tucker(e, ctx):
     return Call(D.partial_tucker, kw)
 
 
-register("partial_tucker", s_partial_tucker(), b_partial_tucker, quick=100)
+register("partial_tucker", s_partial_tucker(), b_partial_tucker, quick=150)
 
 
 @st.composite
@@ -294,7 +294,11 @@ def s_nn_tucker_hals(draw):
     c["core_sparsity_coefficient"] = draw(st.sampled_from([None, 0.1]))
     c["algorithm"] = draw(st.sampled_from(["fista", "active_set"]))
     # fixed modes only make sense with a user init (the initialiser builds factors for the free modes only)
-    c["fixed_modes"] = draw(fixed_modes_st(n)) if c["init"] in ("tuple", "list", "tkt") else None
+    c["fixed_modes"] = None
+    if c["init"] in ("tuple", "list", "tkt") and draw(st.booleans()):
+        c["fixed_modes"] = draw(st.lists(st.integers(0, n - 1), unique=True, min_size=1, max_size=n))
+        if draw(st.integers(0, 2)) > 0:      # per-mode coefficients next to fixed modes: the entries the solver resets
+            c["sparsity_coefficients"] = draw(st.lists(st.sampled_from([0.1, 0.5, None]), min_size=n, max_size=n))
     return c
 
 
